@@ -163,6 +163,16 @@ def sig_matches(finding, sig, replay):
     for p in finding.get("sig_prefix", ()):
         if sig.startswith(p):
             return True
+    cc = finding.get("cell_classes")
+    if cc and " class=" in sig:
+        cls = set(sig.split(" class=")[1].split(" ")[0].split("+"))
+        # a failing table cell is attributed to listed findings only if every class it belongs to is listed here
+        if cls != {"none"} and cls <= set(cc) | set(finding.get("cell_classes_also", [])):
+            return True
+    for p in finding.get("sig_regex", ()):
+        import re
+        if re.search(p, sig):
+            return True
     return False
 
 
